@@ -106,5 +106,6 @@ pub fn spec_c04() -> PropSpec {
         nt_rule: "",
         engine: "seq",
         runner: None,
+        decode: None,
     }
 }
